@@ -128,7 +128,6 @@ def text_layout(ctx):
     run.absorb(ex)
     from .cli import run_jawk, show
     for c in fam.candidates:
-        if c.unmodelled: c.status = 'inconclusive'; continue
         n = c.model.get('n', 2)
         if c.role == 'no-columns-accepted':
             r = run_jawk(ctx, ['-o', 'csv'], b'{"a":1}')
@@ -236,7 +235,6 @@ def csv_quoting(ctx):
     import csv, io
     from .cli import run_jawk, show
     for c in fam.candidates:
-        if c.unmodelled: c.status = 'inconclusive'; continue
         s = ''.join(chr(x) for x in c.model['chars']) or 'a"b'
         r = run_jawk(ctx, ['-o', 'csv', '--select', '.=v'], json.dumps(s).encode())
         txt = r['stdout'].decode('utf-8', errors='replace')
